@@ -223,6 +223,43 @@ func runCheck(prop string, ps *PropSpec, tier, repo string, seed int, verbose bo
 	lemmasNeeded := map[string]bool{}
 	lemmasProved := map[string]bool{}
 	funcs := append([]string{}, ps.Funcs...)
+	// a clause labelled for this property is an obligation of this property wherever it stands:
+	// functions carrying one are verified here even if props.json does not list them
+	labelled := map[string]bool{}
+	for _, full := range sortedKeys(p.CS.Funcs) {
+		con := p.CS.Funcs[full]
+		fn := p.Funcs[full]
+		if con == nil || con.Trusted || p.CS.Assumed[full] || fn == nil || fn.Blocks == nil || !p.inRepoPkg(pkgOf(fn)) {
+			continue
+		}
+		has := false
+		chk := func(cs []*Clause) {
+			for _, c := range cs {
+				if strings.HasPrefix(c.Name, prop+":") {
+					has = true
+				}
+			}
+		}
+		chk(con.Requires)
+		chk(con.Ensures)
+		for _, ls := range con.Loops {
+			chk(ls.Invariants)
+		}
+		if !has {
+			continue
+		}
+		us := p.shortName(full)
+		seen := false
+		for _, f := range funcs {
+			if f == us {
+				seen = true
+			}
+		}
+		if !seen {
+			funcs = append(funcs, us)
+			labelled[us] = true
+		}
+	}
 	for fi := 0; fi < len(funcs); fi++ {
 		short := funcs[fi]
 		if fi == len(funcs)-1 {
@@ -308,6 +345,9 @@ func runCheck(prop string, ps *PropSpec, tier, repo string, seed int, verbose bo
 		fr := fnReport{Name: short, Instrs: vc.nInstr, Abstracted: vc.nAbstract, AbstractedW: vc.abstracted, Notes: vc.notes, Loops: len(vc.loops), Mode: "mathematical integers with generated no-overflow obligations"}
 		if autoAdded[short] {
 			fr.Role = "callee whose contract a function of this property relies on (added automatically)"
+		}
+		if labelled[short] {
+			fr.Role = "carries clauses labelled for this property (added automatically)"
 		}
 		if con.NoOvf {
 			fr.Mode = "mathematical integers; machine arithmetic treated as mathematical (no overflow obligations)"
